@@ -1,7 +1,7 @@
 """C10 - reported permutational symmetries are true; decompositions lossless."""
 import sys
 from fractions import Fraction
-from sympy import Add, Mul, S, Rational
+from sympy import Add, Mul, S, Rational  # noqa: F401
 from adcgen.expr_container import Expr
 from adcgen.indices import Index, get_symbols
 from adcgen import sort_expr
@@ -194,7 +194,38 @@ def symmetrised_expr(rng):
     """expression with known target symmetry: sum over a subgroup of target
     permutations with signs, plus possibly an unsymmetric extra term"""
     occ, virt = G.pool("o", 7), G.pool("v", 7)
-    shape = rng.choice(["ia,jb", "ij,ab", "ijab", "ia", "ij", "ijk,abc"])
+    shape = rng.choice(["ia,jb", "ij,ab", "ijab", "ia", "ij", "ijk,abc",
+                        "ijabpq", "ijabpq"])
+    if shape == "ijabpq":
+        # three index spaces with two targets each: the probed permutations
+        # do not form a group (no pair products)
+        gen = G.pool("g", 4)
+        tg_names, tg = "ijabpq", occ[:2] + virt[:2] + gen[:2]
+        gens = [[(occ[0], occ[1])], [(virt[0], virt[1])],
+                [(gen[0], gen[1])]]
+        facs = [G.NonSymmetricTensor(nm, (x,)) for nm, x in
+                zip(["n1", "n2", "n3", "n4", "n5", "n6"], tg)]
+        e = 0
+        for _ in range(rng.randint(1, 2)):
+            rest = G.random_term(rng, rng.randint(0, 1),
+                                 {"o": occ[2:5], "v": virt[2:5]},
+                                 names=["V", "t1", "d"])
+            base = Mul(*facs) * rest
+            if rng.random() < 0.5:
+                base = G.NonSymmetricTensor("n", tuple(tg)) * rest
+            sign = rng.choice([1, -1])
+            cur = [(base, 1)]
+            for g in [g for g in gens if rng.random() < 0.85]:
+                new = []
+                for tm, s_ in cur:
+                    m = {}
+                    for a, b in g:
+                        m.update({a: b, b: a})
+                    new.append((tm.xreplace(m), s_ * sign))
+                cur += new
+            c = G.random_coef(rng)
+            e += Add(*[c * s_ * tm for tm, s_ in cur])
+        return e, tg_names, tg
     if shape in ("ia,jb",):
         tg_names, tg = "ia,jb", [occ[0], virt[0], occ[1], virt[1]]
         gens = [[(occ[0], occ[1]), (virt[0], virt[1])]]
